@@ -674,8 +674,11 @@ func (cc *ChunkCollection) ToMarkdownWithOptions(opts MarkdownOptions) string {
 			}
 		}
 
-		// Check if this is a new section
-		isNewSection := chunk.Metadata.SectionTitle != "" && chunk.Metadata.SectionTitle != currentSection
+		// Check if this is a new section. A chunk that is itself a heading always
+		// opens its section, also when the section before it has the same title
+		// (two consecutive "Notes" sections are two headings, not one)
+		isNewSection := chunk.Metadata.SectionTitle != "" &&
+			(chunk.Metadata.SectionTitle != currentSection || chunk.isHeading())
 
 		if isNewSection {
 			currentSection = chunk.Metadata.SectionTitle
@@ -690,6 +693,12 @@ func (cc *ChunkCollection) ToMarkdownWithOptions(opts MarkdownOptions) string {
 	}
 
 	return sb.String()
+}
+
+// isHeading reports whether the chunk is the heading of its section (as opposed
+// to content inside the section).
+func (c *Chunk) isHeading() bool {
+	return c.Text == c.Metadata.SectionTitle && c.Metadata.ContainsElementType("heading")
 }
 
 // contentToMarkdown outputs just the chunk content without section heading
